@@ -9,7 +9,7 @@ PIN = {}
 FUNCTIONS = [Simulation.start, Simulation.resume, simh.M.Monitor.run, simh.M.Monitor.collate_events] + simh.FUNCTIONS[4:12]
 META = {
     'bounds': {'C11.horizon_T': 16, 'C11.pause_k': '1..T-1', 'C11.second_cut_j': 'k..T', 'C11.scenarios': 'two observations (start 0..2, durations 1..2), 2-task workflow, Batch(1,2 partitions) and Queue',
-               'C11.refusals': 'start() twice, resume() before start()'},
+               'C11.refusals': 'start() twice (mid-run and after completion), resume() before start()'},
     'outside_bounds': ['more than two resume segments', 'horizons > 16 steps', 'output to HDF5 files'],
     'stubs': simh.STUBS, 'assumptions': [],
 }
@@ -25,7 +25,10 @@ def scenario(s2, d1, d2, da, db):
 def _run(k, j, s2, d1, d2, da, db):
     ref = simh.outputs(simh.run_public(scenario(s2, d1, d2, da, db), [T]))
     segs = [k] + ([j] if j > k else []) + ([T] if T > j else [])
-    got = simh.outputs(simh.run_public(scenario(s2, d1, d2, da, db), segs))
+    try:
+        got = simh.outputs(simh.run_public(scenario(s2, d1, d2, da, db), segs))
+    except Exception as ex:
+        return f'C11/paused-run-raises/{type(ex).__name__}'
     for key in ('state', 'table', 'tasks', 'events'):
         if got[key] != ref[key]:
             detail = ''
@@ -76,15 +79,21 @@ def _refuse(which, k):
         if (sim.env.now, len(sim.env._queue), len(sim.monitor.df.rows), sim.running) != before:
             return 'C11/refused-resume-changed-state'
         return None
-    sim.start(runtime=k)
+    if which == 2:
+        sim.start()                                  # to completion, then the horizon k further
+        sim.resume(until=sim.env.now + k)
+    else:
+        sim.start(runtime=k)
     before = simh.outputs(sim), len(sim.env._queue)
     try:
-        sim.start(runtime=k + 1)
+        sim.start(runtime=sim.env.now + 1)
         return 'C11/second-start-not-refused'
     except RuntimeError:
         pass
     if (simh.outputs(sim), len(sim.env._queue)) != before:
         return 'C11/refused-start-changed-state'
+    if which == 2:
+        return None
     # and the run can still be resumed to the same result as an uninterrupted one
     sim.resume(until=T)
     ref = simh.outputs(simh.run_public(sc, [T]))
@@ -93,16 +102,23 @@ def _refuse(which, k):
     return None
 
 
+def _refuse_safe(which, k):
+    try:
+        return _refuse(which, k)
+    except Exception as ex:
+        return f'C11/refusal-scenario-raises/{type(ex).__name__}'
+
+
 def refuse_tag(which, k):
     wit.begin()
-    which, k = cz(which, 0, 1), cz(k, 1, 8)
+    which, k = cz(which, 0, 2), cz(k, 1, 8)
     wit.reach('refusal')
-    return wit.native(_refuse, which, k)
+    return wit.native(_refuse_safe, which, k)
 
 
 def refuse(which: int, k: int) -> bool:
     """
-    pre: 0 <= which <= 1 and 1 <= k <= 8
+    pre: 0 <= which <= 2 and 1 <= k <= 8
     post: _
     """
     t = refuse_tag(which, k)
